@@ -95,6 +95,12 @@ type fillOpts struct {
 	// put into a field tagged omitempty, whether to store nil instead (used
 	// to steer around listed nil-vs-empty findings). path is the dotted field
 	// path from the root.
+	// fillDash: when set, fields tagged `json:"-"` are filled too unless the
+	// function says the exclusion is a documented one. (C08: a value must come
+	// back equal, so a field silently excluded from the encoding is lost data
+	// unless the library documents the exclusion; C43 leaves it nil: there the
+	// tag is the type author's explicit opt-out.)
+	fillDash func(owner reflect.Type, f reflect.StructField) (documentedExclusion bool)
 	steerOmitEmpty func(path string) bool
 	steered        int
 	path           []string
@@ -351,7 +357,7 @@ func fill(v reflect.Value, s *stream, o *fillOpts) {
 		}
 		for i := 0; i < t.NumField(); i++ {
 			_, opts, dash := jsonTag(t.Field(i))
-			if dash {
+			if dash && (o.fillDash == nil || o.fillDash(t, t.Field(i))) {
 				continue
 			}
 			o.path = append(o.path, t.Field(i).Name)
@@ -405,8 +411,8 @@ type vdiff struct {
 	Detail  string
 	Owner   reflect.Type // innermost struct type on the path (nil at top)
 	Field   *reflect.StructField
-	Parents []reflect.Type // struct types from outermost to innermost
-	Leaf    reflect.Type   // type of the value that differs
+	Parents []reflect.Type        // struct types from outermost to innermost
+	Leaf    reflect.Type          // type of the value that differs
 	Chain   []reflect.StructField // Chain[i] is the field of Parents[i] the path goes through
 }
 
